@@ -138,7 +138,7 @@ fn main() {
     std::process::exit(code);
 }
 
-const ALL_PROPERTIES: &[&str] = &["C01", "C02", "C03", "C04", "C05", "C07", "C08", "C10", "C11", "C12", "C13", "C15", "C16"];
+const ALL_PROPERTIES: &[&str] = &["C01", "C02", "C03", "C04", "C05", "C07", "C08", "C09", "C10", "C11", "C12", "C13", "C15", "C16", "C19"];
 
 fn digests(property: &str, seed: u64, runs: usize, threads: usize) -> Vec<(u64, u64)> {
     match property {
